@@ -268,7 +268,7 @@ func proveBinaryOpConstValues(op t.ID, lb bounds, rb bounds) (ok bool) {
 
 func (q *checker) proveBinaryOp(op t.ID, lhs *a.Expr, rhs *a.Expr) error {
 	lcv := lhs.ConstValue()
-	if lcv != nil {
+	if lcv != nil && rhs.MType() != nil {
 		rb, err := q.bcheckExpr(rhs, 0)
 		if err != nil {
 			return err
@@ -278,7 +278,7 @@ func (q *checker) proveBinaryOp(op t.ID, lhs *a.Expr, rhs *a.Expr) error {
 		}
 	}
 	rcv := rhs.ConstValue()
-	if rcv != nil {
+	if rcv != nil && lhs.MType() != nil {
 		lb, err := q.bcheckExpr(lhs, 0)
 		if err != nil {
 			return err
